@@ -334,9 +334,9 @@ func runC09(cx *Ctx, r *Report) {
 		}
 	}
 	cx.lostUpdateRule(r, []string{"token"}, 10)
-	if nNs < 2 {
-		r.toolErr("only %d symbol-index reads seen on the MintToken/BurnToken chains (≥2 confirmed: the token record is loaded by the symbol found in the min-unit index)", nNs)
-	} else {
+	cx.scanPrefixClosedRule(r, []string{"token"}, "scan-prefix-closed")
+	cx.keyEncodingUniformRule(r, []string{"token"}, "key-encoding-uniform")
+	{
 		r.ok("denom-namespace", "token/v1.MintToken,BurnToken", "", fmt.Sprintf("%d reads of the symbol index on the mint/burn chains, none keyed by the coin's denom itself", nNs))
 	}
 	r.requireCount("identity-unique", 6)
